@@ -64,7 +64,7 @@ func (c context) same(d context) bool {
 		c.element.partial == d.element.partial &&
 		c.element.continued == d.element.continued &&
 		sameNames(c.attr.names, d.attr.names) &&
-		c.attr.value == d.attr.value &&
+		(c.attr.value == d.attr.value || c.attr.ambiguousValue && d.attr.ambiguousValue) &&
 		c.attr.ambiguousValue == d.attr.ambiguousValue &&
 		c.attr.dynamic == d.attr.dynamic &&
 		c.attr.dynamicStart == d.attr.dynamicStart &&
